@@ -4,6 +4,7 @@ package ed25519
 // (no generics, unsigned shift counts only).
 
 import (
+	"bytes"
 	"crypto"
 	"crypto/sha512"
 	"fmt"
@@ -229,8 +230,40 @@ func modelVerify(t triple, vs variantSpec, zip bool) (bool, ref.Cause) {
 	return ok, c
 }
 
+// modHook, when set (C13 only), is told about any API call that changed a caller-supplied slice.
+var modHook func(api, which string, before, after []byte)
+
+func snap(t triple) triple {
+	cp := func(b []byte) []byte {
+		if b == nil {
+			return nil
+		}
+		return append([]byte{}, b...)
+	}
+	return triple{cp(t.key), cp(t.msg), cp(t.sig)}
+}
+
+func checkIntact(api string, before, after triple) {
+	if modHook == nil {
+		return
+	}
+	if !bytes.Equal(before.key, after.key) {
+		modHook(api, "key", before.key, after.key)
+	}
+	if !bytes.Equal(before.msg, after.msg) {
+		modHook(api, "message", before.msg, after.msg)
+	}
+	if !bytes.Equal(before.sig, after.sig) {
+		modHook(api, "signature", before.sig, after.sig)
+	}
+}
+
 // implSingle runs the single-signature verifier, reporting a panic instead of propagating it.
 func implSingle(t triple, vs variantSpec, zip bool) (ok bool, panicked interface{}) {
+	if modHook != nil {
+		b := snap(t)
+		defer func() { checkIntact("Verify", b, t) }()
+	}
 	defer func() {
 		if r := recover(); r != nil {
 			ok, panicked = false, r
@@ -244,6 +277,10 @@ func implSingle(t triple, vs variantSpec, zip bool) (ok bool, panicked interface
 
 // implSingleOpts always goes through VerifyWithOptions.
 func implSingleOpts(t triple, vs variantSpec, zip bool) (ok bool, panicked interface{}) {
+	if modHook != nil {
+		b := snap(t)
+		defer func() { checkIntact("VerifyWithOptions", b, t) }()
+	}
 	defer func() {
 		if r := recover(); r != nil {
 			ok, panicked = false, r
@@ -254,6 +291,17 @@ func implSingleOpts(t triple, vs variantSpec, zip bool) (ok bool, panicked inter
 
 // implBatch runs VerifyBatch under recover.
 func implBatch(entries []triple, vs variantSpec, zip bool, rnd *rt.Rng) (all bool, valid []bool, err error, panicked interface{}) {
+	if modHook != nil {
+		bs := make([]triple, len(entries))
+		for i, e := range entries {
+			bs[i] = snap(e)
+		}
+		defer func() {
+			for i := range entries {
+				checkIntact("VerifyBatch", bs[i], entries[i])
+			}
+		}()
+	}
 	defer func() {
 		if r := recover(); r != nil {
 			panicked = r
